@@ -12,7 +12,9 @@ import (
 type expAck struct {
 	ch, seq  uint8
 	optional bool
-	at       Stamp // read stamp of the request
+	at       Stamp  // read stamp of the request
+	by       uint64 // the acknowledgement is on the wire before this event: the socket reads frame
+	// i+2 only after the receive loop has taken frame i+1, i.e. after it finished with frame i
 }
 
 func checkC04(v *tunView, m *connModel) {
@@ -24,10 +26,16 @@ func checkC04(v *tunView, m *connModel) {
 		return
 	}
 	var expAcks []expAck
-	accepted := map[int]int{}    // id -> how many times the model accepted it (must be delivered)
-	mayDeliver := map[int]bool{} // ids that may (but need not) be delivered
+	accepted := map[int]int{}   // id -> how many times the model accepted it (must be delivered)
+	mayDeliver := map[int]int{} // ids that may (but need not) be delivered, and how often
 	var acceptOrder []int
 	var expected []uint8 = make([]uint8, len(m.epochs))
+	ackBy := func(i int) uint64 {
+		if i+2 < len(v.rx) {
+			return v.rx[i+2].At.Seq
+		}
+		return ^uint64(0)
+	}
 	for i, x := range v.rx {
 		if !x.F.OK || x.F.Svc != svcTunnelReq {
 			continue
@@ -55,10 +63,10 @@ func checkC04(v *tunView, m *connModel) {
 				}
 				accepted[id]++
 				acceptOrder = append(acceptOrder, id)
-				expAcks = append(expAcks, expAck{ch: ep.Channel, seq: x.F.Seq, at: x.At})
+				expAcks = append(expAcks, expAck{ch: ep.Channel, seq: x.F.Seq, at: x.At, by: ackBy(i)})
 			case exp - 1:
 				e.Probe("duplicate-request-reacknowledged")
-				expAcks = append(expAcks, expAck{ch: ep.Channel, seq: x.F.Seq, at: x.At})
+				expAcks = append(expAcks, expAck{ch: ep.Channel, seq: x.F.Seq, at: x.At, by: ackBy(i)})
 			default:
 				e.Probe("out-of-sequence-request")
 			}
@@ -66,8 +74,8 @@ func checkC04(v *tunView, m *connModel) {
 			// consumption uncertain (last frame before an asynchronous transition, or after Close
 			// was invoked): if it was processed it was processed by the rules, which the
 			// acknowledgement matcher checks; delivery is allowed, not required.
-			mayDeliver[id] = true
-			expAcks = append(expAcks, expAck{ch: x.F.Channel, seq: x.F.Seq, optional: true, at: x.At})
+			mayDeliver[id]++
+			expAcks = append(expAcks, expAck{ch: x.F.Channel, seq: x.F.Seq, optional: true, at: x.At, by: ackBy(i)})
 		}
 	}
 	// acknowledgements the client emitted, in order
@@ -92,7 +100,7 @@ func checkC04(v *tunView, m *connModel) {
 			matched := false
 			for j < len(expAcks) {
 				x := expAcks[j]
-				if x.ch == a.ch && x.seq == a.seq && a.at.Seq > x.at.Seq {
+				if x.ch == a.ch && x.seq == a.seq && a.at.Seq > x.at.Seq && a.at.Seq < x.by {
 					matched = true
 					j++
 					break
@@ -133,10 +141,10 @@ func checkC04(v *tunView, m *connModel) {
 			continue
 		}
 		seen[d.ID]++
-		if accepted[d.ID] == 0 && !mayDeliver[d.ID] {
+		if accepted[d.ID] == 0 && mayDeliver[d.ID] == 0 {
 			e.Violate("C04", "delivered-not-accepted", "telegram id=%d was delivered on Inbound although it was not acceptable (foreign channel, out of sequence or a repetition)", d.ID)
 		}
-		if seen[d.ID] > 1 && seen[d.ID] > accepted[d.ID] {
+		if seen[d.ID] > 1 && seen[d.ID] > accepted[d.ID]+mayDeliver[d.ID] {
 			e.Violate("C04", "delivered-twice", "telegram id=%d was delivered %d times on Inbound", d.ID, seen[d.ID])
 		}
 		if accepted[d.ID] > 0 {
@@ -256,8 +264,8 @@ func checkC05(v *tunView, m *connModel) {
 		last = busPos[s.ID]
 	}
 	// bus -> client: every telegram the gateway saw acknowledged is delivered once, in order
-	if c.Reader == "absent" {
-		return
+	if c.Reader == "absent" || m.giveUp {
+		return // (without a connection model there is no telling whether the tunnel stayed open)
 	}
 	open := m.term == nil && (m.closeInv == nil || m.closeInv.Seq > r.h.Settled.Seq)
 	delivered := map[int]int{}
@@ -360,7 +368,7 @@ func checkC09(v *tunView, m *connModel) {
 				ok = true
 			}
 			for _, y := range v.rx {
-				if y.F.OK && y.F.Svc == svcConnStateRes && y.F.Channel == ep.Channel && y.At.T > x.At.T-c.R-eps && y.At.T <= lim {
+				if y.F.OK && y.F.Svc == svcConnStateRes && y.F.Channel == ep.Channel && y.At.T >= x.At.T-c.R-eps && y.At.T <= lim { // (a response parked for exactly R may still be taken: timer tie)
 					ok = true
 				}
 			}
@@ -401,8 +409,12 @@ func checkC09(v *tunView, m *connModel) {
 			if dl >= endOfObs.T {
 				continue
 			}
+			nextStart := ^uint64(0) // answers after the next connection was established belong to it
+			if k+1 < len(m.epochs) {
+				nextStart = m.epochs[k+1].Start.Seq
+			}
 			for _, x := range v.tx {
-				if x.At.Seq < ep.End.Seq || !x.F.OK {
+				if x.At.Seq < ep.End.Seq || !x.F.OK || x.At.Seq > nextStart {
 					continue
 				}
 				if x.F.Svc == svcDiscRes && x.F.Channel == ep.Channel && x.At.T <= dl {
